@@ -238,10 +238,14 @@ def run(ctx):
         ('bool', ref_bool), ('null', simple7(((22, 22),), is_unit)), ('undefined', simple7(((23, 23),), is_unit)),
         ('simple', ref_simple), ('tag', ref_tag), ('array', ref_container(4)), ('map', ref_container(5)),
         ('bytes', ref_bytes), ('str', ref_str), ('bytes_iter', ref_chunks(2)), ('str_iter', ref_chunks(3)),
-        ('f16', ref_float({2: F16})),
-        ('f32', ref_float({2: F16, 4: F32})),
-        ('f64', ref_float({2: 'f64::from(' + F16 + ')', 4: 'f64::from(' + F32 + ')', 8: F64})),
     ]
+    if prog.feature('half'):
+        specs += [('f16', ref_float({2: F16})),
+                  ('f32', ref_float({2: F16, 4: F32})),
+                  ('f64', ref_float({2: 'f64::from(' + F16 + ')', 4: 'f64::from(' + F32 + ')', 8: F64}))]
+    else:
+        # documented difference: without `half` a half-precision item is a type error and f16() does not exist
+        specs += [('f32', ref_float({4: F32})), ('f64', ref_float({4: 'f64::from(' + F32 + ')', 8: F64}))]
     roots = 0
     for name, ref in specs:
         def ref2(major, w, d, r, ref=ref):
@@ -260,7 +264,7 @@ def run(ctx):
     intdec.check_int_accessor(ctx, 'T-DEC', 'int', prog, DEC + 'int', FULL, value_of=int_value)
     intdec.check_int_accessor(ctx, 'T-DEC', 'char', prog, DEC + 'char', ty_range('char'))
     roots += 2
-    ctx.floor('T-DEC', 'accessor roots', roots, 24)
+    ctx.floor('T-DEC', 'accessor roots', roots, 24 if prog.feature('half') else 23)
     ctx.rules_run.append('T-TYPE: datatype() classification of all 256 initial bytes (+ peek split) vs RFC 8949 major types; no consumption')
     check_datatype(ctx, prog)
     return 'Complete (initial byte x argument) tables of %d accessors extracted from MIR and compared with the RFC 8949 data model.' % roots
